@@ -49,7 +49,7 @@ MINIMUMS = {"handoff_while_pending": 100, "cancel_after_handoff": 10, "monitor:m
 JOBS = {"quick": 4, "thorough": 16}
 
 OPS = ("E1", "E3", "F", "FX", "C", "R", "X", "S")
-EXH_LEN = {"quick": 5, "thorough": 7}
+EXH_LEN = {"quick": 5, "thorough": 8}
 RANDOM_CASES = {"quick": 6000, "thorough": 400_000}
 
 
@@ -406,7 +406,7 @@ def replay(R: Recorder, case: dict[str, Any]) -> None:
     run_virtual(main)
 
 LEVEL_TEXT = (
-    "Every op sequence up to the tier's length (quick 5, thorough 7) over the 8 producer/consumer operations is executed "
+    "Every op sequence up to the tier's length (quick 5, thorough 8) over the 8 producer/consumer operations is executed "
     "against the real AsyncQueue in two modes and judged by a sequential model (settled mode: exact receive outcomes) and by "
     "history invariants over unique elements (racy mode: prefix order, no loss/duplication, reason only after the buffer, "
     "drain completeness, sticky reason identity, enqueue-after-finish, progress); random sequences up to length 40 on top. "
